@@ -101,6 +101,22 @@ return ok
 def cases(ctx):
     L = 2 if ctx.quick else 3
     out = []
+    for cid, ct in [("dtype", "leaf('value', 'dtype', 'in_', [int, str])"), ("tree", "('or', V('is_instance', bool), ('and', V('greater_than', t1), V('truthy')))")]:
+        body = f"""
+PT = (('prim', 'xs'), ('list', NULL))
+CT = {ct}
+rule = Rule(build_path(PT), build_cond(CT))
+docs = ({{'xs': [1, u1, 0]}}, {{'xs': [True, u1, F0]}}, {{'xs': []}}, {{'ys': 1}}, {{'xs': [1, u1, 0]}}, {{'xs': [[1], None, F2]}})
+ok = True
+for doc in docs:
+    t = rule.test(doc)
+    valid, tested, fails = ref_rule(PT, CT, doc)
+    ok = ok and same('verdict on this document', (t.is_valid, t.tested, t.num_failures), (valid, tested, len(fails)))
+    ok = ok and same('failing paths', tx([tuple(f.path) for f in t.failures]), tx([cp for _, cp in fails]))
+return ok
+"""
+        body = body.replace("F0", "False" if cid == "tree" else "0.0").replace("F2", "2" if cid == "tree" else "2.0")
+        out.append(mk_case(f"c05.reuse.{cid}", [("t1", "int"), ("u1", "Union[bool, None, str]")], body, pre=[f"BU({L}, t1, u1)"], stubs=["sym_repr"]))
     # values that compare equal but differ in type (1 / True / 1.0, 0 / False / 0.0) under type-sensitive conditions
     for cid, ct in [("dtype_int", "leaf('value', 'dtype', 'equal_to', int)"), ("dtype_bool", "leaf('value', 'dtype', 'equal_to', bool)"),
                     ("dtype_in", "leaf('value', 'dtype', 'in_', [float, bool])"), ("is_instance_bool", "V('is_instance', bool)"),
